@@ -637,4 +637,30 @@ theorem released_carriers (info : Nat → Pipeline.Info) (server : MainLoop.Endp
       exact stepW_out_carriers _ _ _ (by simp) q hq
     · exact ih _ r hr
 
+-- ------------------------------------------------------------------ addressed frames
+/-- what a payload-carrying exported packet shows, sequence/acknowledgement numbers aside -/
+def pktData? (p : Pipeline.OutPkt) :
+    Option (Nat × Bytes × Bytes × MainLoop.Endpoint × MainLoop.Endpoint × Bool × Bytes) :=
+  if p.flags = 0x18 then some (p.ts, p.srcMac, p.dstMac, p.src, p.dst, p.ipv6, p.payload) else none
+
+def dataPkts (fs : List Pipeline.OutPkt) := fs.filterMap pktData?
+
+theorem dataPkts_addressed (o : MainLoop.Opts) (c : Pipeline.Conn) (fs : List TcpOut.Frame) :
+    dataPkts (fs.map (Pipeline.addressed o c))
+      = (TcpOut.dataFrames fs).filterMap fun d => pktData? (Pipeline.addressed o c ⟨d.2.1, d.1, 0x18, 0, 0, d.2.2⟩) := by
+  induction fs with
+  | nil => rfl
+  | cons f fs ih =>
+    simp only [dataPkts, TcpOut.dataFrames, List.map_cons, List.filterMap_cons] at ih ⊢
+    rw [ih]
+    by_cases h : f.flags = 0x18
+    · cases hs : f.fromServer <;> simp [TcpOut.Frame.data?, pktData?, Pipeline.addressed, h, hs]
+    · cases hs : f.fromServer <;> simp [TcpOut.Frame.data?, pktData?, Pipeline.addressed, h, hs]
+
+theorem released_take_prefix (info : Nat → Pipeline.Info) (server : MainLoop.Endpoint)
+    (R : Reassembly.St × Reassembly.St) (pkts : List MainLoop.Pkt) (n : Nat) :
+    released info server R (pkts.take n) <+: released info server R pkts := by
+  conv => rhs; rw [← List.take_append_drop n pkts, released_append]
+  exact List.prefix_append _ _
+
 end TLX.Lemmas.Pipeline
